@@ -126,15 +126,16 @@ type sub struct {
 }
 
 type c19Params struct {
-	Cap    int      `json:"cap"`
-	Mode   string   `json:"mode"`
-	Subs   []string `json:"subs"` // "who:tripleName"
-	Bound  int      `json:"bound"`
-	Seq    bool     `json:"seq"` // sequential: one submission at a time
-	Pairs  bool     `json:"pairs,omitempty"`
-	Fill   bool     `json:"fill,omitempty"`
-	Shard  int      `json:"shard,omitempty"`
-	Shards int      `json:"shards,omitempty"`
+	Cap     int      `json:"cap"`
+	Mode    string   `json:"mode"`
+	Subs    []string `json:"subs"` // "who:tripleName"
+	Bound   int      `json:"bound"`
+	Seq     bool     `json:"seq"` // sequential: one submission at a time
+	Pairs   bool     `json:"pairs,omitempty"`
+	Fill    bool     `json:"fill,omitempty"`
+	Triples bool     `json:"triples,omitempty"` // sequential: every ordered triple too
+	Shard   int      `json:"shard,omitempty"`
+	Shards  int      `json:"shards,omitempty"`
 }
 
 func runReceipts(cap int, mode string, subs []sub, seq bool, ch vrt.Chooser) (out explore.Outcome) {
@@ -306,31 +307,47 @@ func init() {
 		if p.Pairs {
 			// sequential: every single triple and every ordered pair, for each service behaviour
 			n := 0
+			thirds := []int{-1}
+			if p.Triples {
+				thirds = thirds[:0]
+				for k := range alpha {
+					thirds = append(thirds, k)
+				}
+			}
 			for i, t1 := range alpha {
 				for k := -1; k < len(alpha); k++ {
-					n++
-					if p.Shards > 1 && n%p.Shards != p.Shard {
-						continue
+					for _, k3 := range thirds {
+						if k3 >= 0 && k < 0 {
+							continue
+						}
+						n++
+						if p.Shards > 1 && n%p.Shards != p.Shard {
+							continue
+						}
+						subs := []sub{{Who: "a", T: t1}}
+						desc := t1.Name
+						if k >= 0 {
+							subs = append(subs, sub{Who: "b", T: alpha[k]})
+							desc += "," + alpha[k].Name
+						}
+						if k3 >= 0 {
+							subs = append(subs, sub{Who: "a", T: alpha[k3]})
+							desc += "," + alpha[k3].Name
+						}
+						if p.Fill {
+							// two accepted receipts first: with capacity 1 and a credit service that
+							// never answers, one is being forwarded, one sits in the queue - the
+							// submissions under test find the queue full
+							subs = append([]sub{{Who: "c", T: alpha[0]}, {Who: "c", T: alpha[1]}}, subs...)
+							desc = "valid,valid-2," + desc
+						}
+						_ = i
+						st := explore.Explore(func(ch vrt.Chooser) explore.Outcome {
+							cp := append([]sub{}, subs...)
+							return runReceipts(p.Cap, p.Mode, cp, true, ch)
+						}, explore.Config{Bound: 0})
+						add(st, fmt.Sprintf("cap=%d service=%s [%s]", p.Cap, p.Mode, desc))
 					}
-					subs := []sub{{Who: "a", T: t1}}
-					desc := t1.Name
-					if k >= 0 {
-						subs = append(subs, sub{Who: "b", T: alpha[k]})
-						desc += "," + alpha[k].Name
-					}
-					if p.Fill {
-						// two accepted receipts first: with capacity 1 and a credit service that
-						// never answers, one is being forwarded, one sits in the queue - the
-						// submissions under test find the queue full
-						subs = append([]sub{{Who: "c", T: alpha[0]}, {Who: "c", T: alpha[1]}}, subs...)
-						desc = "valid,valid-2," + desc
-					}
-					_ = i
-					st := explore.Explore(func(ch vrt.Chooser) explore.Outcome {
-						cp := append([]sub{}, subs...)
-						return runReceipts(p.Cap, p.Mode, cp, true, ch)
-					}, explore.Config{Bound: 0})
-					add(st, fmt.Sprintf("cap=%d service=%s [%s]", p.Cap, p.Mode, desc))
 				}
 			}
 		} else {
@@ -361,6 +378,20 @@ func init() {
 				jobs = append(jobs, check.Job{Kind: "c19", Name: "IN:receipt-pairs", Params: p})
 			}
 		}
+		if tier == "thorough" {
+			// every ordered triple of submissions (a, b, a) for each service behaviour
+			for _, mode := range []string{"200", "500", "error", "never"} {
+				for sh := 0; sh < 4; sh++ {
+					p, _ := json.Marshal(c19Params{Cap: 128, Mode: mode, Pairs: true, Triples: true, Shard: sh, Shards: 4})
+					jobs = append(jobs, check.Job{Kind: "c19", Name: "IN:receipt-triples", Params: p})
+				}
+			}
+			for sh := 0; sh < 4; sh++ {
+				p, _ := json.Marshal(c19Params{Cap: 1, Mode: "200", Pairs: true, Triples: true, Shard: sh, Shards: 4})
+				jobs = append(jobs, check.Job{Kind: "c19", Name: "IN:receipt-triples-cap1", Params: p})
+			}
+			b = 3
+		}
 		p1, _ := json.Marshal(c19Params{Cap: 1, Mode: "200", Pairs: true})
 		p1f, _ := json.Marshal(c19Params{Cap: 1, Mode: "never", Pairs: true, Fill: true})
 		jobs = append(jobs, check.Job{Kind: "c19", Name: "IN:receipt-pairs-cap1", Params: p1}, check.Job{Kind: "c19", Name: "IN:receipt-pairs-queue-full", Params: p1f})
@@ -378,7 +409,7 @@ func init() {
 		}
 		return jobs
 	}, check.PropInfo{
-		Rule:        "triples = one valid (receipt, hash, signature) and every single-field corruption (each field emptied; hash of another text, truncated, 33/44 bytes with the right suffix or prefix, one bit flipped, leading zero stripped; signature 64/66 bytes, bad recovery id, zero r/s, over another hash, garbage; text changed after signing); sequential: every single triple and every ordered pair x credit service {200, 500, transport error, never answers} x queue capacity {1, 128}; concurrent: three submissions from two connections fired at once, queue capacity 1 and 2, every interleaving of the two main loops and the forwarder thread (preemption-bounded). Oracle: a harness-owned http.RoundTripper as credit service; forwarded <=> Keccak-256(text) = hash and the signature is recoverable (go-ethereum primitives called directly) and the submission was accepted; at most once; body field-for-field equal; exactly one answer per submission of the allowed kind; no main loop ever waits on the queue.",
+		Rule:        "triples = one valid (receipt, hash, signature) and every single-field corruption (each field emptied; hash of another text, truncated, 33/44 bytes with the right suffix or prefix, one bit flipped, leading zero stripped; signature 64/66 bytes, bad recovery id, zero r/s, over another hash, garbage; text changed after signing); sequential: every single triple and every ordered pair (thorough: every ordered triple of submissions) x credit service {200, 500, transport error, never answers} x queue capacity {1, 128}; concurrent: three submissions from two connections fired at once, queue capacity 1 and 2, every interleaving of the two main loops and the forwarder thread (preemption-bounded). Oracle: a harness-owned http.RoundTripper as credit service; forwarded <=> Keccak-256(text) = hash and the signature is recoverable (go-ethereum primitives called directly) and the submission was accepted; at most once; body field-for-field equal; exactly one answer per submission of the allowed kind; no main loop ever waits on the queue.",
 		Assumptions: []string{"the answer is observed where the property puts it (messages handed to the connection); the teardown that follows an erroneous receipt is not counted against it", "receiver/sender threads eager"},
 	})
 }
